@@ -189,7 +189,7 @@ fn ground(r: &mut Rng) -> ST {
         _ => gen_literal(r),
     }
 }
-pub const SHAPES: [&str; 13] = ["cycle", "clique", "components", "star", "bipartite", "blank-graph", "twice-in-quad", "three-blank-quad", "row28-witness", "literals", "random", "unsupported", "path-tree"];
+pub const SHAPES: [&str; 14] = ["cycle", "clique", "components", "star", "bipartite", "blank-graph", "twice-in-quad", "three-blank-quad", "row28-witness", "literals", "random", "unsupported", "path-tree", "b9-b10"];
 /// a dataset of one of the shapes; at most 6 blank nodes
 pub fn gen_dataset(r: &mut Rng, shape: usize, big: bool) -> Vec<Q> {
     let mut v: Vec<Q> = vec![];
@@ -337,6 +337,33 @@ pub fn gen_dataset(r: &mut Rng, shape: usize, big: bool) -> Vec<Q> {
             };
             let k = r.below(v.len() + 1);
             v.insert(k, bad);
+        }
+        "b9-b10" => {
+            // ten or more temporary identifiers, and a related-node list in which one node occurs twice:
+            // permutations then give paths of different lengths (_:b9 vs _:b10).  A chain a0..a(L-1) ends in
+            // n = a(L-1); n p x g1 . n p x g2 . n p yi g1 . m p yi g2 .  (x and the yi share a first-degree
+            // hash; x is related to n twice); everything duplicated so that no first-degree hash is unique
+            let l = r.range(5, 10);
+            let ny = r.range(1, 3);
+            let pc = r.ps(&[P, PQ, "http://e/r", "http://e/s", "http://e/t"]);
+            let pg = r.ps(&[P, PQ, "http://e/r", "http://e/u"]);
+            let copies = r.range(1, 2);
+            for c in 0..copies {
+                let nd = |i: usize| bnode(&format!("c{c}n{i}"));
+                for i in 0..l - 1 {
+                    v.push(e(nd(i), pc, nd(i + 1)));
+                }
+                let n = nd(l - 1);
+                let m = nd(100);
+                let x = nd(200);
+                v.push(eg(n.clone(), pg, x.clone(), iri("http://e/g1")));
+                v.push(eg(n.clone(), pg, x.clone(), iri("http://e/g2")));
+                for k in 0..ny {
+                    let y = nd(300 + k);
+                    v.push(eg(n.clone(), pg, y.clone(), iri("http://e/g1")));
+                    v.push(eg(m.clone(), pg, y.clone(), iri("http://e/g2")));
+                }
+            }
         }
         _ => {
             // paths and small trees: asymmetric structures resolved by first-degree hashes or one recursion
@@ -806,8 +833,9 @@ pub fn run(mode: &str) {
     for idx in range {
         let mut r = base.fork(idx as u64);
         let exhaustive = c06 && thorough && idx < EXHAUSTIVE;
-        let shape = if c06 { *r.pick(&[9usize, 9, 9, 6, 6, 7, 10, 10, 11, 0, 1, 2, 3, 4, 5, 8, 12]) } else { r.below(SHAPES.len()) };
-        let big = thorough && r.chance(1, 10);
+        let forced = a.rest.iter().position(|x| x == "--shape").and_then(|i| a.rest.get(i + 1)).and_then(|n| SHAPES.iter().position(|s| s == n));
+        let shape = if let Some(f) = forced { f } else if c06 { *r.pick(&[9usize, 9, 9, 6, 6, 7, 10, 10, 11, 0, 1, 2, 3, 4, 5, 8, 12]) } else { r.below(SHAPES.len() - 1) };
+        let big = thorough && r.chance(1, 40);
         let d: Vec<Q> = if exhaustive { exhaustive_case(idx).unwrap() } else { gen_dataset(&mut r, shape, big) };
         let shape_name = if exhaustive { "exhaustive" } else { SHAPES[shape] };
         let sha384 = r.chance(1, 3);
@@ -825,7 +853,10 @@ pub fn run(mode: &str) {
             for (k, (df1000, pl)) in [(1000u64, 6usize), (dfg, plg)].into_iter().enumerate() {
                 let store = if k == 0 { s1 } else { s2 };
                 let (order, out) = run_impl(&shuffled, store, sha384, df1000 as f32 / 1000.0, pl);
-                check_one(&format!("limits ({},{}) in {}", df1000 as f32 / 1000.0, pl, STORES[store]), &d, &order, &out, &spec1, df1000, pl, &mut fails);
+                // the specification runs on the quads as the store enumerates them (a term index keeps the
+                // first spelling of language tags that differ only in case)
+                let spec_o = spec_run(&order, sha384);
+                check_one(&format!("limits ({},{}) in {}", df1000 as f32 / 1000.0, pl, STORES[store]), &order, &order, &out, &spec_o, df1000, pl, &mut fails);
                 sum.bump(&format!("outcome:{}", ["ok", "unsupported-blank-predicate", "unsupported-term", "toxic-depth", "toxic-permutations", "panic"].get(out.code as usize).unwrap_or(&"other")));
                 if a.only.is_some() { println!("RUN limits=({df1000}/1000,{pl}) store={} order={} => code {} {} bytes={:?} idmap={:?}", STORES[store], show_d(&order), out.code, out.msg, out.bytes, out.idmap); }
                 body.push(format!("three_ok {once} tbl {df1000} {pl} {} {} {} {}", c_quads(&order), out.code, pstr(&out.bytes), c_idmap(&out.idmap)));
@@ -841,11 +872,14 @@ pub fn run(mode: &str) {
             };
             shuffle(&mut fresh, &mut r);
             let d2: Vec<Q> = { let mut v: Vec<Q> = d.iter().map(|q| rename_q(q, &|l| fresh[labels.iter().position(|k| k == l).unwrap()].clone())).collect(); shuffle(&mut v, &mut r); v };
-            let spec2 = spec_run(&d2, sha384);
             let (o1, out1) = run_impl(&d, s1, sha384, 1.0, 6);
             let (o2, out2) = run_impl(&d2, s2, sha384, 1.0, 6);
-            check_one(&format!("original in {}", STORES[s1]), &d, &o1, &out1, &spec1, 1000, 6, &mut fails);
-            check_one(&format!("copy in {}", STORES[s2]), &d2, &o2, &out2, &spec2, 1000, 6, &mut fails);
+            // the specification runs on the quads as the stores enumerate them (a term index keeps the
+            // first spelling of language tags that differ only in case)
+            let spec1 = spec_run(&o1, sha384);
+            let spec2 = spec_run(&o2, sha384);
+            check_one(&format!("original in {}", STORES[s1]), &o1, &o1, &out1, &spec1, 1000, 6, &mut fails);
+            check_one(&format!("copy in {}", STORES[s2]), &o2, &o2, &out2, &spec2, 1000, 6, &mut fails);
             sum.bump(&format!("outcome:{}", ["ok", "unsupported-blank-predicate", "unsupported-term", "toxic-depth", "toxic-permutations", "panic"].get(out1.code as usize).unwrap_or(&"other")));
             // (a) invariance
             let mut tie = None;
